@@ -4,7 +4,7 @@ import lib, e2
 from lib import Check, s_str
 
 PID = 'C10'
-CONE = ['Regex.v', 'IR.v', 'AttrPat.v', 'Parser.v', 'EscapeFacts.v', 'UnescFacts.v', 'RunFacts.v', 'AttrFacts.v', 'gen/RegexGen.v', 'gen/ConstGen.v']
+CONE = ['Regex.v', 'IR.v', 'AttrPat.v', 'Parser.v', 'EscapeFacts.v', 'UnescFacts.v', 'IdentFacts.v', 'RunFacts.v', 'AttrFacts.v', 'gen/RegexGen.v', 'gen/ConstGen.v']
 INTERESTING = [0, 1, 9, 10, 12, 13, 31, 32, 33, 34, 35, 39, 40, 41, 44, 45, 46, 47, 48, 57, 58, 64, 65, 70, 71, 90, 91, 92, 93, 95, 96, 97, 102,
                103, 122, 123, 126, 127, 128, 133, 159, 160, 173, 255, 256, 0x17f, 0x212a, 0x2028, 0x3000, 0xd7ff, 0xd800, 0xdbff, 0xdc00,
                0xdfff, 0xe000, 0xfeff, 0xfffd, 0xfffe, 0xffff, 0x10000, 0x1f600, 0xe0001, 0x10ffff]
